@@ -149,6 +149,9 @@ def run_config(chk, config):
 
 def run(chk):
     run_config(chk, "default")
+    # "exactly the specified octets" includes the back-patched length fields and the AVP flag bits (C07's obligations)
+    import rules.c07 as c07
+    c07.run_config(chk, "default")
     if chk.tier == "thorough":
         for cfg in ("debug", "release"):
             run_config(chk, cfg)
